@@ -337,3 +337,11 @@ def check_tlp_marking(marking_obj, spec_version):
 
         else:
             raise exceptions.TLPMarkingDefinitionError(marking_obj["id"], "Does not match any TLP Marking definition")
+
+        # The STIX 2.1 instances are named as well (TLP:WHITE, ...): a name
+        # which belongs to another instance, or to none, is not that instance.
+        if spec_version != '2.0' and "name" in marking_obj \
+                and marking_obj["name"] != "TLP:" + color.upper():
+            raise exceptions.TLPMarkingDefinitionError(
+                marking_obj["name"], "TLP:" + color.upper(),
+            )
